@@ -32,6 +32,9 @@ func propC03(c *Ctx) {
 	c.ruleMemoCoverage("C03-MEMO-KEY-COVERS")
 	// a fault in the Tags of a method must be seen although its URL has Tags too: the method's own directive is read first
 	c.ruleTagPriority("C03-TAG-PRIORITY")
+	// a duplicate ENUM declared inside macro bodies must reach the duplicate check: the rules of every pasted body
+	// are collected, unconditionally
+	c.ruleC10RulesWithBody()
 }
 
 // orderedMapType: is t (pointer to) one of the generated ordered maps (struct with data map + order slice)?
